@@ -3450,6 +3450,9 @@ namespace bloch::runtime {
                 m_trackedCounts[key][outcome]++;
             }
         }
+        // Destroying the scope can run user destructors, which push and pop scopes of their own;
+        // take the scope out first so the stack is consistent while that happens.
+        auto dying = std::move(m_env.back());
         m_env.pop_back();
     }
 
